@@ -5,7 +5,8 @@
          [Constrained bad]       the guard looks at it: the default parameter set is accepted and the same set
                                  with [bad] at this field is rejected;
          [FreeDocumented why]    the guard never looks at it and the documentation states no range (quoted);
-         [FreeKnown f why]       the guard never looks at it ALTHOUGH a range is documented: a known finding.
+         [FreeKnown f why]       the guard never looks at it ALTHOUGH a range is documented: a known finding
+                                 (F42; F-C04-1 was one until the repair 6e23381).
        A numeric field that is not in the table (a new field) makes FieldProofs.every_field_accounted fail.
     2. [untranslated_table]: the fields whose Rust type is outside the translated subset (generators, distance
        functions, markers, kernels, tokenisers): none of them is a number the guard could look at.
@@ -99,7 +100,8 @@ Definition field_table : list (string * list (string * field_status)) :=
    ("HierarchicalCluster", [("stopping", Constrained (VCtor "NumClusters" [VN 0]))]);
    ("FastIcaParams",
      [("tol", Constrained (VF k_m1));
-      ("gfunc", FreeKnown "F-C04-1" "fast_ica.rs, Fit::fit `# Errors`: `If the alpha value set for GFunc::Logcosh is not between 1 and 2 inclusive` - tested inside the first iteration of fit, not by check_ref");
+      (* fast_ica.rs `# Errors`: alpha of GFunc::Logcosh between 1 and 2 inclusive (guarded since 6e23381, finding F-C04-1 fixed) *)
+      ("gfunc", Constrained (VCtor "Logcosh" [VF k_5]));
       ("ncomponents", FreeDocumented "`Set the number of components to use, if not set all are used`; compared with the data by fit");
       ("max_iter", FreeDocumented "`Set maximum number of iterations during fit` - no range");
       ("random_state", FreeDocumented "`Set seed for random number generator for reproducible results.` - any value")]);
@@ -192,7 +194,7 @@ Definition nonfinite_table : list (string * string * list special * (spec_float 
    ("FtrlParams", "l1_ratio", [], fun x => [("l1_ratio", VF x)]);
    ("FtrlParams", "l2_ratio", [], fun x => [("l2_ratio", VF x)]);
    ("HierarchicalCluster", "stopping.Distance", [], fun x => [("stopping", VCtor "Distance" [VF x])]);
-   ("FastIcaParams", "gfunc.Logcosh", [SNaN; SPInf; SNInf], fun x => [("gfunc", VCtor "Logcosh" [VF x])]);
+   ("FastIcaParams", "gfunc.Logcosh", [], fun x => [("gfunc", VCtor "Logcosh" [VF x])]);
    ("FastIcaParams", "tol", [SNaN; SPInf], fun x => [("tol", VF x)]);
    ("TweedieRegressorParams", "alpha", [SNaN; SPInf], fun x => [("alpha", VF x)]);
    ("TweedieRegressorParams", "power", [SNaN; SPInf; SNInf], fun x => [("power", VF x)]);
